@@ -163,6 +163,8 @@ def cmd_run(argv):
         if subs and not any(s in name for s in subs):
             continue
         mp = os.path.join(SEEDED, name, 'meta.json')
+        if not os.path.isfile(mp):
+            continue
         meta = json.load(open(mp))
         d = scratch()
         try:
